@@ -29,6 +29,7 @@ def run(ctx: Ctx) -> Result:
             res.violations.append({'input': {'what': what, **inp}, 'expected': exp, 'observed': str(obs)[:300], 'how_to_run': './check C18 --replay <this file>'})
     base = lambda s: nb.crypto_scalarmult_ed25519_base_noclamp(s)
     histories = []
+    builds, autheds = [], []          # model ties: builder bytes per hop, and (cache, scripts, verdict) of every hop's adapter check
     for it in range(ctx.n(60, 600)):
         n = rng.choice([2, 2, 3, 4, 5, 8])
         seed = rng.choice([V.rbytes(rng, rng.choice([1, 3, 16, 32, 33, 40, 64, 100])), b'', None, b'fixed-seed', b'fixed-seed', b'route-prefix-of-thirty-two-bytes!' + bytes([rng.randrange(4)]), b'route-prefix-of-thirty-two-bytes!' + V.rbytes(rng, 8)])
@@ -176,7 +177,14 @@ def run(ctx: Ctx) -> Result:
                     viol('setup_amhl: the returned key does not open the last hop', inp, 'True', False); continue
                 ws = [T.make_adapter_witness(seeds[i], tw[i], sfs[i], flags) for i in range(n)]
                 for i in range(n):
-                    if not F.run_auth_scripts([ws[i].bytes, amhl[pks[i]][0].bytes], dict(sfs[i])):
+                    builds.append((f'BUILD2 adapter_lock1 {pks[i].hex()} {tw[i].hex()} {int(flags, 16)}', amhl[pks[i]][0].bytes.hex()))
+                    if not (refund and pks[i] in refund):
+                        builds.append((f'BUILD2 single_sig_lock {pks[i].hex()} {int(flags, 16)}', amhl[pks[i]][1].bytes.hex()))
+                    ok_i = F.run_auth_scripts([ws[i].bytes, amhl[pks[i]][0].bytes], dict(sfs[i]))
+                    autheds.append((dict(sfs[i]), [ws[i].bytes, amhl[pks[i]][0].bytes], bool(ok_i)))
+                    j_ = (i + 1) % n          # another hop's adapter against this hop's lock: model and implementation agree on that verdict too
+                    autheds.append((dict(sfs[i]), [ws[j_].bytes, amhl[pks[i]][0].bytes], bool(F.run_auth_scripts([ws[j_].bytes, amhl[pks[i]][0].bytes], dict(sfs[i])))))
+                    if not ok_i:
                         viol(f'adapter witness of hop {i} fails its adapter lock', inp, 'True', False)
                 kcur = key
                 for i in range(n - 1, -1, -1):
@@ -197,6 +205,21 @@ def run(ctx: Ctx) -> Result:
                         kcur = T.release_left_amhl_lock(ws[i], sig, sc[i])
         except BaseException as e:
             viol('AMHL builders raised', inp, 'no exception', type(e).__name__ + ': ' + str(e))
+    # the model's builders and the model's run of every hop's lock (theorem adapterLock1_run speaks about these bytes)
+    if ctx.driver.available:
+        try:
+            for (line, got), r in zip(builds, ctx.driver.run([b[0] for b in builds])):
+                if r != got and len(res.disagreements) < 20:
+                    res.disagreements.append({'builder': line, 'model': r[:300], 'impl': got[:300]})
+            replies = ctx.driver.run([vmrun.case_line('AUTH', cfg, c, sc) for c, sc, _ in autheds])
+            for (c, sc, ok_), r in zip(autheds, replies):
+                if (r.split(' ')[0] == 'T') != ok_ and len(res.disagreements) < 20:
+                    res.disagreements.append({'scripts': [x.hex() for x in sc], 'cache': vmrun.cache_str(c, False), 'model': r[:200], 'impl': str(ok_)})
+        except Exception as e:
+            res.disagreements.append({'driver': str(e)[:300]})
+    else:
+        res.disagreements.append({'driver': 'not built'})
+    res.stats['builder_outputs_compared_with_model'] = len(builds); res.stats['hop_lock_runs_compared_with_model'] = len(autheds)
     res.sample({'n': histories[0][0], 'seed': str(histories[0][1])})
     res.stats['setups'] = len(histories)
     res.stats['search'] = 'each history judged on the implementation alone by independent integer / PyNaCl arithmetic'
